@@ -7,6 +7,7 @@
      Deliver(r, off, len, matches)      the consumer of read r received len bytes for offset off; matches = they equal
                                         the uploaded plaintext there (byte comparison by the observer)
      ReadResult(r, res)                 the Deferred of read r fired: "ok" or the class of the error
+     Stop(r)                            the consumer of read r called stopProducing (the reader went away)
      Quiescent(unresolved, outstanding) no call is pending, every timer has fired; outstanding = calls that were
                                         lost and never failed (then some server has neither answered nor failed)
      Livelock(unresolved, cause)        the same call was answered the same way several hundred times in a row
@@ -47,8 +48,16 @@ VDeliver(e) ==
   ELSE LET c == DeliverClause(R[e.r], e.off, e.len, e.matches) IN
        IF c # "" THEN V(c, R, stuck) ELSE V("", [R EXCEPT ![e.r] = AfterDeliver(@, e.len)], stuck)
 
+\* the consumer of read r called stopProducing: the read is over as far as the property is concerned (its Deferred
+\* fails with DownloadStopped, nothing more is owed to it); every other read still has to resolve
+VStop(e) ==
+  IF e.r \notin DOMAIN R THEN V("harness_unknown_read", R, stuck)
+  ELSE IF R[e.r].st # "pending" THEN V("harness_stop_of_resolved_read", R, stuck)
+  ELSE V("", [R EXCEPT ![e.r].st = "stopped"], stuck)
+
 VResult(e) ==
   IF e.r \notin DOMAIN R THEN V("harness_unknown_read", R, stuck)
+  ELSE IF R[e.r].st = "stopped" THEN (IF e.res = "ok" /\ R[e.r].pos # R[e.r].end THEN V("C02_SuccessIsComplete", R, stuck) ELSE V("", R, stuck))
   ELSE LET rd0 == R[e.r]
            c == ResultClause(rd0, e.res, TG, SegsOf(rd0.off, rd0.end - rd0.off, C.segsize)) IN
        IF c # "" THEN V(c, R, stuck)
@@ -70,6 +79,7 @@ Verdict(e) ==
   CASE e.ev = "Read"       -> VRead(e)
     [] e.ev = "Deliver"    -> VDeliver(e)
     [] e.ev = "ReadResult" -> VResult(e)
+    [] e.ev = "Stop"       -> VStop(e)
     [] e.ev = "Quiescent"  -> VQuiescent(e)
     [] e.ev = "Livelock"   -> VLivelock(e)
     [] OTHER               -> V("unknown_event", R, stuck)
